@@ -31,7 +31,7 @@ TRUSTED_BASE = [
     "Coq 8.16.1 kernel + vm_compute (case evaluation); no native_compute",
     "axioms: none (Print Assumptions: Closed under the global context for every C03 theorem)",
     "tools/py2v.py fragment translator and tools/sitegen/reduce.py (statement ranges of SparseArray.reduce, "
-    "the masked-assignment rewriting rule data[m] = f(data[m], e[m]) -> if m: data = f(data, e), inlining of a branch-local abbreviation, 44 source pins); "
+    "the masked-assignment rewriting rule data[m] = f(data[m], e[m]) -> if m: data = f(data, e), inlining of a branch-local abbreviation, 49 source pins); "
     "Lib/PyReduce.v as the meaning of NumPy ufuncs on Python ints",
     "Spec/NpReduce.v as a description of numpy ufunc.reduce (cross-checked against NumPy on every generated case)",
     "Model/Reduce.v hand transcription of COO._reduce_calc/_reduce_return, _calc_counts_invidx, reduceat, "
@@ -60,7 +60,7 @@ UNPROVED = [
     "nanmax / nanmin (x.reduce(np.fmax / np.fmin)) and nanmean: reduce_den holds for any associative-commutative op, but "
     "no instance for fmax/fmin over a value type with a NaN token is given; nanmean is differential only",
     "GCXS: gcxs_recompress_is_coo_calc ties change_compressed_axes + the index-pointer arithmetic to the COO core for "
-    "ndim >= 2 arrays that are the GCXS image (Convert.gcxs_from_coo) of a canonical COO array; gcxs_reduce_den_partial "
+    "ndim >= 2 arrays that are the GCXS image (Convert.gcxs_from_coo) of a canonical COO array; gcxs_reduce_den "
     "is stated for the COO-core model of that path.  GCXS._reduce_return (1-d GCXS, then GCXS.reshape to the kept "
     "extents) and the flatten() of the full-reduction path are modelled through COO reshape (dense-equivalent), "
     "tied by API-level correspondence and C05/C08",
@@ -72,7 +72,6 @@ UF = {"add": 0, "multiply": 1, "minimum": 2, "maximum": 3, "logical_or": 4, "log
       "bitwise_or": 6, "bitwise_and": 7, "bitwise_xor": 8}
 METHOD = {"add": "sum", "multiply": "prod", "minimum": "min", "maximum": "max", "logical_or": "any",
           "logical_and": "all"}
-CLAUSE = {11: "gcxs_axes_nonempty", 12: "gcxs_axes_distinct"}
 NARROW = {"int8": (8, True), "uint8": (8, False), "int16": (16, True), "uint16": (16, False),
           "int32": (32, True), "uint32": (32, False)}
 
@@ -330,8 +329,6 @@ def impl_diff(case):
             narrow = in_dt in ("float32", "float16")
             if str(rd.dtype) != str(np.asarray(e).dtype):
                 bad.append(f"dtype {rd.dtype} vs numpy {np.asarray(e).dtype}")
-                if kind == "nanmean" and narrow and same(rd, e, exact=False):
-                    clause = "nanmean_narrow_float_result_dtype"
             if not same(rd, e, exact=(kind in ("mean", "nanmean") and not narrow)):
                 bad.append(f"values {rd.tolist()} vs numpy {np.asarray(e).tolist()}")
             kind = "mean" if kind == "nanmean" else kind
@@ -368,8 +365,6 @@ def impl_diff(case):
             vals_ok = same(rd, e, exact=(fn not in ("nanmean",) and fdt == "float64"))
             if str(rd.dtype) != str(np.asarray(e).dtype):
                 bad.append(f"dtype {rd.dtype} vs numpy {np.asarray(e).dtype}")
-                if fn == "nanmean" and fdt != "float64" and vals_ok:
-                    clause = "nanmean_narrow_float_result_dtype"
             if not vals_ok:
                 bad.append(f"values {rd.tolist()} vs numpy {np.asarray(e).tolist()}")
         elif kind == "inffill":
@@ -482,19 +477,6 @@ def structured_spec(rng, shape, axes, fill, fmt, values):
         k = rng.randint(1, ndim - 1)
         spec["caxes"] = sorted(rng.sample(range(ndim), k))
     return spec
-
-
-def gcxs_clause(spec, axis):
-    """the GCXS axis clause (Model/Reduce.v) that a case falls outside of, if any"""
-    if spec["format"] != "gcxs" or axis is None or isinstance(axis, int):
-        return None
-    if len(axis) == 0:
-        return "gcxs_axes_nonempty"
-    nd = len(spec["shape"])
-    l = [a + nd if a < 0 else a for a in axis]
-    if len(set(l)) != len(l):
-        return "gcxs_axes_distinct"
-    return None
 
 
 def directed_wrap_cases():
@@ -880,9 +862,7 @@ def campaign(build, tier, seed, report, budget=1):
         if t < 0:
             tag("model/bad_input")
             continue
-        cl, rest = divmod(t, 100)
-        tag(f"model/path={pathn.get(rest // 10)}/{'super' if rest % 10 else 'plain'}/"
-            f"{'in_domain' if cl == 0 else 'outside:' + CLAUSE.get(cl, str(cl))}")
+        tag(f"model/path={pathn.get(t // 10)}/{'super' if t % 10 else 'plain'}")
     for i, code in bad:
         c, r = cases[i], res[i]
         kind = {1: "representation", 9: "representation", 10: "representation"}.get(code, "value")
@@ -892,7 +872,7 @@ def campaign(build, tier, seed, report, budget=1):
                 8: "inadmissible reduction did not raise ValueError",
                 9: "malformed input literal (generator / constructor)",
                 10: "Spec/NpReduce.v differs from NumPy"}.get(code, "implementation differs from NumPy semantics (outside the proved domain)")
-        viol.append({"property": "C03", "op": "reduce", "ufunc": c["uf"], "kind": kind, "clause": CLAUSE.get(code),
+        viol.append({"property": "C03", "op": "reduce", "ufunc": c["uf"], "kind": kind, "clause": None,
                      "format": c["spec"]["format"], "code": code, "what": what, "case": c,
                      "impl": r.get("out") if isinstance(r, dict) else r,
                      "numpy": r.get("np") if isinstance(r, dict) else None, "replay_py": replay_line(c)})
@@ -949,7 +929,7 @@ def campaign(build, tier, seed, report, budget=1):
         if badl:
             ax = _axis_py(c["axis"])
             viol.append({"property": "C03", "op": "reduce_differential", "function": name, "kind": "value",
-                         "clause": (r.get("clause") if isinstance(r, dict) else None) or gcxs_clause(c["spec"], c["axis"]),
+                         "clause": (r.get("clause") if isinstance(r, dict) else None),
                          "in_dtype": c.get("in_dtype"),
                          "format": c["spec"]["format"], "what": "; ".join(badl)[:400], "case": c, "impl": badl,
                          "replay_py": diff_replay_line(c, name)})
